@@ -499,7 +499,6 @@ fn item_sweep(p: &pdu::Payload, action: Action, item: &Payload, flags: u8) -> Re
     let by_type = (ty == PayloadType::Origin, ty == PayloadType::RouterKey, ty == PayloadType::Aspa);
     let by_pdu = (matches!(p, pdu::Payload::V4(_) | pdu::Payload::V6(_)), matches!(p, pdu::Payload::RouterKey(_)), matches!(p, pdu::Payload::Aspa(_)));
     if by_accessor != by_type || by_type != by_pdu { return Err(format!("payload_type() {ty:?} disagrees with the variant accessors / the PDU type")) }
-    if item.as_ref() != item.clone().as_ref() || Payload::from(item.clone()) != *item { return Err("Payload::as_ref / clone disagree".into()) }
     if let Some(o) = item.to_origin() {
         let v4 = matches!(p, pdu::Payload::V4(_));
         if o.is_v4() != v4 || o.prefix.addr().is_ipv4() != v4 { return Err(format!("RouteOrigin::is_v4() = {} for a type-{} PDU", o.is_v4(), if v4 { 4 } else { 6 })) }
@@ -1208,6 +1207,77 @@ fn judge_client(acc: &mut Acc, seed: &ClientSeed, stream: &[u8], script: &[Ev], 
 }
 
 
+/// Splits what a client wrote into PDUs by their length fields.
+fn split_sent(b: &[u8]) -> Option<Vec<&[u8]>> {
+    let mut out = Vec::new();
+    let mut p = 0;
+    while p < b.len() {
+        if b.len() - p < 8 { return None }
+        let len = u32::from_be_bytes([b[p + 4], b[p + 5], b[p + 6], b[p + 7]]) as usize;
+        if len < 8 || p + len > b.len() { return None }
+        out.push(&b[p..p + len]); p += len;
+    }
+    Some(out)
+}
+
+/// The other client entry points against `Client::step` on the same stream
+/// and schedule (which must end with the peer closing): `Client::new`,
+/// `Client::run`, and error reports written by `Client::send_error` directly
+/// and through a failing `PayloadTarget::apply`.
+fn judge_client_variants(acc: &mut Acc, seed: &ClientSeed, stream: &[u8], script: &[Ev], what: &str) {
+    let wit = || format!("client={} reply={} {what}variants sched={}", seed.name, show(stream), render_script(script));
+    if skip_for_replay(script, &wit) { return }
+    let base = exec_client(seed.init_v, seed.state, stream, script);
+    let delivered: usize = script.iter().map(|e| if let Ev::Deliver(k) = e { *k } else { 0 }).sum();
+    let mut ok = true;
+    let mut runs = 1;
+    let mut level = |acc: &mut Acc, r: &ClientRun| run_level(acc, "client", &wit, r.pending_at_quiescence, &r.end, r.livelock, r.spin, true);
+    if seed.init_v == 2 {
+        let r = exec_client_mode(CMode { how: How::New, ..CMode::STEP }, 2, seed.state, stream, script); runs += 1;
+        ok &= level(acc, &r);
+        if r.res != base.res || r.applied != base.applied || r.state != base.state || r.sent != base.sent {
+            acc.fail("C07.client.variants", &wit, format!("Client::new: {:?} / state {:?} / sent {}; with_initial_version(2): {:?} / state {:?} / sent {}", r.res, r.state, show(&r.sent), base.res, base.state, show(&base.sent))); ok = false;
+        }
+    }
+    let in_frame = base.res.is_err() || base.consumed as usize == delivered.min(stream.len());
+    if in_frame {
+        let r = exec_client_mode(CMode { how: How::Run, ..CMode::STEP }, seed.init_v, seed.state, stream, script); runs += 1;
+        ok &= level(acc, &r);
+        let want_ok = match &base.res { Ok(()) => true, Err(e) => e.starts_with("UnexpectedEof") };
+        if r.res.is_ok() != want_ok || (!want_ok && r.res != base.res) || r.applied != base.applied || r.state != base.state {
+            acc.fail("C07.client.variants", &wit, format!("Client::run: {:?}, {} updates, state {:?}; one step: {:?}, {} updates, state {:?}", r.res, r.applied.len(), r.state, base.res, base.applied.len(), base.state)); ok = false;
+        }
+    }
+    if base.res.is_ok() && in_frame {
+        let mut codes = Vec::new();
+        for e in [PayloadError::UnknownWithdraw, PayloadError::DuplicateAnnounce, PayloadError::Corrupt, PayloadError::Internal] {
+            let direct = exec_client_mode(CMode { send: Some(e), ..CMode::STEP }, seed.init_v, seed.state, stream, script);
+            let via_apply = exec_client_mode(CMode { fail: Some(e), ..CMode::STEP }, seed.init_v, seed.state, stream, script);
+            runs += 2;
+            ok &= level(acc, &direct); ok &= level(acc, &via_apply);
+            let r = (|| -> Result<u16, String> {
+                if let Err(x) = &direct.res { return Err(format!("send_error({e:?}) fails on a healthy socket: {x}")) }
+                if via_apply.res.is_ok() { return Err(format!("step succeeds although the target rejected the update with {e:?}")) }
+                if direct.sent != via_apply.sent { return Err(format!("send_error({e:?}) wrote {}, the failing apply made the client write {}", show(&direct.sent), show(&via_apply.sent))) }
+                if !direct.sent.starts_with(&base.sent) { return Err("the queries before the error report differ".into()) }
+                let tail = &direct.sent[base.sent.len()..];
+                // well-formed per the wire grammar, and skippable by the library's own reader
+                if grammar(Rd::SkipError, tail) != Exp::Ok(tail.len()) { return Err(format!("error report {} is not one well-formed Error PDU", show(tail))) }
+                let back = exec(&[Rd::SkipError], tail, &closes(tail.len())[0]);
+                if !matches!(back.steps.first(), Some(Step { res: Ok(Got::Skipped(_)), consumed }) if *consumed as usize == tail.len()) { return Err(format!("error report {} does not read back", show(tail))) }
+                let queries = split_sent(&base.sent).ok_or("client queries are not a PDU sequence")?;
+                let last = queries.last().ok_or("no query was sent")?;
+                if tail[0] != last[0] { return Err(format!("error report has version {}, the session runs version {}", tail[0], last[0])) }
+                Ok(u16::from_be_bytes([tail[2], tail[3]]))
+            })();
+            match r { Ok(c) => codes.push(c), Err(d) => { acc.fail("C07.client.send_error", &wit, d); ok = false } }
+        }
+        if ok && dedup(codes.clone()).len() != 4 { acc.fail("C07.client.send_error", &wit, format!("the four payload errors are reported with codes {codes:?}")); ok = false }
+    }
+    acc.evals += runs;
+    acc.class(if !ok { "violation" } else if base.res.is_ok() { "variants-agree:step-ok" } else { "variants-agree:step-err" });
+}
+
 //------------ main ----------------------------------------------------------
 
 fn main() {
@@ -1267,7 +1337,7 @@ fn main() {
 
     //--- (2) round trip of whole replies through the client ------------------
     let sp = ctx.space("roundtrip.client",
-        "reset, serial, serial-then-reset and version-downgrade replies (versions 0-2, every payload type the version carries, both actions) written by the library and read by the real Client::step under every fragmentation into <= 3 chunks (quick: <= 2 chunks); the target must receive exactly the items, actions, timing and state written; non-trivial = executions with at least one cut");
+        "reset, serial, serial-then-reset and version-downgrade replies (versions 0-2, every payload type the version carries, both actions) written by the library and read by the real Client::step under every fragmentation into <= 3 chunks (quick: <= 2 chunks); the target must receive exactly the items, actions, timing and state written; for <= 2 chunks also Client::new and Client::run against Client::step, and the Error PDUs of Client::send_error (direct and through a failing PayloadTarget::apply) for the four PayloadError values: identical octets, one well-formed Error PDU of the session's version; non-trivial = executions with at least one cut");
     let cseeds = client_seeds();
     let cstreams: Vec<Vec<u8>> = cseeds.iter().map(|s| s.reply.iter().flat_map(|v| v.build().wire()).collect()).collect();
     let mut cjobs: Vec<(usize, Vec<Ev>)> = Vec::new();
@@ -1285,6 +1355,11 @@ fn main() {
         for (i, script) in chunk {
             if script.len() > 2 { acc.nontrivial += 1 }
             judge_client(&mut acc, &cseeds[*i], &cstreams[*i], script, true, false, "");
+            if script.len() <= 4 {
+                // the other entry points, on the same schedule followed by the server closing
+                let mut closing = script.clone(); closing.extend([Ev::Close, Ev::Settle]);
+                judge_client_variants(&mut acc, &cseeds[*i], &cstreams[*i], &closing, "");
+            }
         }
         acc
     }).collect();
@@ -1299,6 +1374,17 @@ fn main() {
     let accs: Vec<Acc> = (0u16..512).into_par_iter().map(|i| {
         let mut acc = Acc::default();
         let (v6, plen) = (i >= 256, (i % 256) as u8);
+        {
+            // the address-family octet: every value, against the two constructors
+            use rpki::rtr::payload::Afi;
+            let a = Afi::from_u8(plen);
+            acc.evals += 1;
+            if a.into_u8() != plen || a.is_ipv4() == a.is_ipv6()
+                || (a == Afi::ipv4()) != (plen == Afi::ipv4().into_u8()) || (a == Afi::ipv6()) != (plen == Afi::ipv6().into_u8())
+                || !Afi::ipv4().is_ipv4() || !Afi::ipv6().is_ipv6() || a.to_string() != (if a.is_ipv4() { "ipv4" } else { "ipv6" }) {
+                acc.fail("C07.to_payload.same_item", || format!("Afi::from_u8({plen})"), "Afi accessors disagree with each other".into());
+            }
+        }
         for mlen in 0u16..256 { let mlen = mlen as u8; for flags in [0u8, 1] {
             acc.evals += 1;
             let wit = || format!("{} prefix_len={plen} max_len={mlen} flags={flags}", if v6 { "Ipv6Prefix" } else { "Ipv4Prefix" });
@@ -1329,6 +1415,43 @@ fn main() {
     report(&ctx, &sp, accs);
     sp.sample_str(|| "Ipv4Prefix prefix_len=24 max_len=33 flags=1 -> rejected".to_string());
     sp.done(true, "all 2 x 65536 length pairs x 2 actions");
+
+    //--- (2c) provider counts beyond what the library writes --------------------
+    let sp = ctx.space("aspa.provider_count",
+        "ASPA PDUs built octet by octet with n providers for n in 0,1,2,255,256,16379,16380,16381,32767,32768,65534,65535,65536,65537 x versions 0-2 x both actions, read through Aspa::read, Header::read+Aspa::read_payload and Payload::read: whatever a reader accepts must answer every accessor (asn_count against iter().count(), into_providers against providers(), to_payload) without panicking; non-trivial = counts above ProviderAsns::MAX_COUNT, which the library itself never writes");
+    let counts = [0usize, 1, 2, 255, 256, 16379, 16380, 16381, 32767, 32768, 65534, 65535, 65536, 65537];
+    let pjobs: Vec<(usize, u8, u8)> = counts.iter().flat_map(|n| [0u8, 1, 2].into_iter().flat_map(move |v| [0u8, 1].into_iter().map(move |f| (*n, v, f)))).collect();
+    let accs: Vec<Acc> = pjobs.par_iter().map(|(n, v, flags)| {
+        let mut acc = Acc::default();
+        let mut wire = vec![*v, 11, *flags, 0]; wire.extend_from_slice(&((12 + 4 * n) as u32).to_be_bytes()); wire.extend_from_slice(&0xFFFF_FFF0u32.to_be_bytes());
+        for i in 0..*n { wire.extend_from_slice(&(i as u32 ^ 0x8000_00FF).to_be_bytes()) }
+        for rd in [Rd::Read(Ty::Aspa), Rd::Dispatch(Ty::Aspa), Rd::PayloadRead] {
+            let script = closes(wire.len())[1].clone();
+            let wit = || format!("aspa providers={n} v={v} flags={flags} reader={} sched={}", rd.render(), render_script(&script));
+            if skip_for_replay(&script, &wit) { continue }
+            let run = exec(&[rd], &wire, &script);
+            acc.evals += 1;
+            if *n > pdu::ProviderAsns::MAX_COUNT { acc.nontrivial += 1 }
+            if !run_level(&mut acc, "fault", &wit, run.pending_at_quiescence, &run.end, run.livelock, run.spin, true) { acc.class("violation"); continue }
+            match run.steps.first().map(|s| &s.res) {
+                Some(Ok(got)) => {
+                    let aspa = match got { Got::Pdu(Built::Aspa(a)) => a.clone(), Got::Payload(pdu::Payload::Aspa(a)) => a.clone(), other => {
+                        acc.fail("C07.accessor.asn_count", &wit, format!("unexpected result {}", trunc(&format!("{other:?}"), 120))); acc.class("violation"); continue } };
+                    let r = accessor_sweep(&Built::Aspa(aspa.clone())).and_then(|()| {
+                        rpki_verif::guard(|| pdu::Payload::Aspa(aspa.clone()).to_payload().map(|(a, it)| (a, it.as_aspa().map(|x| x.providers.len())))).map_err(|m| format!("to_payload panics: {m}"))
+                            .and_then(|r| match r { Ok((_, Some(len))) if len == 4 * n || (flags & 1 == 0 && len == 0) => Ok(()), other => Err(format!("to_payload gives {other:?}")) })
+                    });
+                    match r { Ok(()) => acc.class("accepted:accessors-agree"), Err(d) => { acc.fail("C07.accessor.asn_count", &wit, d); acc.class("violation") } }
+                }
+                Some(Err(_)) => acc.class(if *n > pdu::ProviderAsns::MAX_COUNT { "rejected:more-than-MAX_COUNT" } else { "rejected" }),
+                None => acc.class("violation"),
+            }
+        }
+        acc
+    }).collect();
+    report(&ctx, &sp, accs);
+    sp.sample_str(|| "aspa providers=65536: length field 262156".to_string());
+    sp.done(true, "14 provider counts x 3 versions x 2 actions x 3 readers");
 
     //--- (3) truncation -------------------------------------------------------
     let sp = ctx.space("fault.truncation",
@@ -1438,6 +1561,7 @@ fn main() {
             CJob::Cut(i, k) => for script in closes(*k) {
                 acc.nontrivial += 1;
                 judge_client(&mut acc, &cseeds[*i], &cstreams[*i], &script, true, true, &format!("cut={k} "));
+                judge_client_variants(&mut acc, &cseeds[*i], &cstreams[*i], &script, &format!("cut={k} "));
             },
             CJob::Corrupt(i, pi) => {
                 let off: usize = cseeds[*i].reply[..*pi].iter().map(|v| v.build().wire().len()).sum();
